@@ -488,7 +488,7 @@ func (t *Task) load(
 			continue
 		}
 		eg.Go(func() error {
-			ctx = wctx.WithNumLimit(ctx, m, n)
+			ctx := wctx.WithNumLimit(ctx, m, n)
 			b, err := t.src.Get(ctx, url, &t.filter, m, n)
 			if err != nil {
 				slog.ErrorContext(ctx, "loading blocks", "error", err)
